@@ -196,9 +196,14 @@ struct Funcs {
     scat: SCat,
 }
 
-fn run_op(op: &Value, lists: &[L], f: &Funcs) -> Value {
+fn run_op(op: &Value, lists: &[L], rev: bool, f: &Funcs) -> Value {
     let k = op["k"].as_str().unwrap();
-    let l = |name: &str| &lists[op[name].as_u64().unwrap() as usize - 1];
+    // every second thread keeps its handles in the opposite order in memory: code that orders locks by
+    // anything but the identity of the shared storage then takes them in different orders on different threads
+    let l = |name: &str| {
+        let i = op[name].as_u64().unwrap() as usize - 1;
+        &lists[if rev { lists.len() - 1 - i } else { i }]
+    };
     let n = |name: &str| op[name].as_u64().unwrap();
     let opt = |x: Option<E>| match x {
         Some(v) => json!([v.v]),
@@ -264,7 +269,7 @@ fn run_op(op: &Value, lists: &[L], f: &Funcs) -> Value {
     }
 }
 
-fn worker(c: Arc<Ctl>, tid: usize, lists: Vec<L>, f: Funcs) {
+fn worker(c: Arc<Ctl>, tid: usize, lists: Vec<L>, rev: bool, f: Funcs) {
     TID.with(|t| t.set(Some(tid)));
     loop {
         let cmd = {
@@ -280,7 +285,7 @@ fn worker(c: Arc<Ctl>, tid: usize, lists: Vec<L>, f: Funcs) {
             }
         };
         ELEM_SEEN.with(|e| e.set(false));
-        let r = std::panic::catch_unwind(std::panic::AssertUnwindSafe(|| run_op(&cmd, &lists, &f)));
+        let r = std::panic::catch_unwind(std::panic::AssertUnwindSafe(|| run_op(&cmd, &lists, rev, &f)));
         let v = match r {
             Ok(v) => v,
             Err(e) => json!({"panic": rvh::util::panic_message(&e)}),
@@ -345,9 +350,13 @@ fn run_case(case: &Value, f: &Funcs, prog: &rvh::batch::Progress) -> Value {
     let mut handles = vec![];
     for tid in 0..nthreads {
         let c2 = c.clone();
-        let ls: Vec<L> = lists.to_vec();
+        let rev = tid % 2 == 1;
+        let mut ls: Vec<L> = lists.to_vec();
+        if rev {
+            ls.reverse();
+        }
         let f2 = f.clone();
-        handles.push(std::thread::spawn(move || worker(c2, tid, ls, f2)));
+        handles.push(std::thread::spawn(move || worker(c2, tid, ls, rev, f2)));
     }
     let mut out = vec![];
     let mut blocked = false;
